@@ -235,6 +235,92 @@ theorem packet_out_roundtrip (n : Nat) (p : PacketOut (Elem n)) (tl : Bytes)
   have h1 : ¬ ((acts ++ p.data).length < acts.length) := by simp
   simp only [decPacketOut, hd, h1, ↓reduceIte, List.take_left' rfl, List.drop_left' rfl, hda acts.length (Nat.le_refl _)]
 
+/-! ## 4b'. `ofp_flow_mod.pack()` with `data` set to a packet-in (`CodecOF.fmPack`) -/
+
+def outL : Layout := ⟨[.uint "type" 2, .lenSelf 2, .uint "port" 2, .uint "max_len" 2], .none⟩
+theorem outL_is : env.layout "ofp_action_output" = some outL := by decide
+
+theorem outTable_ok (n : Nat) : okAt env (n + 1) "actions" (outTable n) := by
+  refine ⟨outL, outL_is, ?_, by decide, .inl (by decide), ?_⟩
+  · exact fits_of_fitsFlat _ _ outL [.num 0, .num 0xfff9, .num 0] none (by decide)
+  · show Picks env "actions" "ofp_action_output" _ _
+    unfold Picks
+    have : env.family "actions" = some (.byType actions "ofp_action_generic") := by decide
+    rw [this]
+    exact ⟨"type", 0, [.lenSelf 2, .uint "port" 2, .uint "max_len" 2], [.num 0xfff9, .num 0], rfl, rfl, by decide⟩
+
+theorem outTable_len (n : Nat) (acts : Bytes)
+    (h : encList ((codecAt env (n + 1)).enc "actions") [outTable n] = some acts) : acts.length = 8 := by
+  simp only [encList, codecAt, outTable, outL_is] at h
+  cases he : encode (codecAt env n) outL ⟨[.num 0, .num 0xfff9, .num 0], .none⟩ with
+  | none => simp [he] at h
+  | some a =>
+    simp only [he, Option.some.injEq] at h
+    obtain ⟨t, ht, hl⟩ := encode_length _ _ _ _ he
+    simp only [outL, encTail, Option.some.injEq] at ht
+    subst ht; subst h
+    simp [hl, outL, fixedSize]
+
+/-- **`flow_mod_data_roundtrip`** — what `ofp_flow_mod.pack()` returns when `data` is set, for every flow-mod (any
+    actions), every packet-in and any two xids:
+    * one message, or three when the packet-in is complete and unbuffered;
+    * the first is the flow-mod itself with `buffer_id` = the packet-in's when that is complete, else its own: it
+      decodes to exactly that record whatever follows it, and its header length is its own byte count (so the framing
+      layer splits the three correctly);
+    * the second and third decode, in sequence, to a barrier request and to the packet-out that re-injects the
+      packet-in's data on its `in_port` with the single action `output:TABLE` and no buffer. -/
+theorem flow_mod_data_roundtrip (n : Nat) (f : FlowMod (Elem (n + 1))) (d : Option PacketInData) (xb xp : Nat) (tl : Bytes)
+    (hf : Fits (codecAt env (n + 1)) (okAt env (n + 1)) Spec.OF10.ofp_flow_mod
+            ⟨fmVals f (wireBuffer f.buffer_id d), .items f.actions⟩)
+    (hxb : xb < 2 ^ 32) (hxp : xp < 2 ^ 32)
+    (hd : ∀ pd, d = some pd → pd.in_port < 65536 ∧ 24 + pd.data.length < 65536) :
+    ∃ m1 more, fmPack (codecAt env (n + 1)) (outTable n) f d xb xp = some (m1 :: more) ∧
+      (∀ rest, decode (codecAt env (n + 1)) Spec.OF10.ofp_flow_mod none (m1 ++ rest) =
+          some (⟨fmVals f (wireBuffer f.buffer_id d), .items f.actions⟩, rest) ∧
+        hdrLen Spec.OF10.ofp_flow_mod (m1 ++ rest) = some m1.length) ∧
+      (needsPacketOut d = false → more = []) ∧
+      (∀ pd, d = some pd → needsPacketOut d = true → ∃ m2 m3, more = [m2, m3] ∧
+        decode (codecAt env (n + 1)) Spec.OF10.header_only none (m2 ++ (m3 ++ tl)) = some (barrierRec _ xb, m3 ++ tl) ∧
+        hdrLen Spec.OF10.header_only (m2 ++ (m3 ++ tl)) = some m2.length ∧
+        decPacketOut (codecAt env (n + 1)) (m3 ++ tl) = some (reinject (outTable n) xp pd, tl) ∧
+        hdrLen packetOutL (m3 ++ tl) = some m3.length) := by
+  have hlen1 : hasLen Spec.OF10.ofp_flow_mod.fixed = true := by decide
+  obtain ⟨m1, _, he1, _, _, _, _⟩ := roundtrip_nested env (n + 1) Spec.OF10.ofp_flow_mod _ none [] hf (.inl hlen1)
+  have hfirst : ∀ rest, decode (codecAt env (n + 1)) Spec.OF10.ofp_flow_mod none (m1 ++ rest) =
+      some (⟨fmVals f (wireBuffer f.buffer_id d), .items f.actions⟩, rest) ∧
+      hdrLen Spec.OF10.ofp_flow_mod (m1 ++ rest) = some m1.length := by
+    intro rest
+    obtain ⟨m1', _, he1', _, hd1, _, hh1⟩ := roundtrip_nested env (n + 1) Spec.OF10.ofp_flow_mod _ none rest hf (.inl hlen1)
+    rw [he1] at he1'; cases he1'
+    exact ⟨hd1, hh1 hlen1⟩
+  cases d with
+  | none =>
+    exact ⟨m1, [], by simp [fmPack, encFlowMod, he1], hfirst, fun _ => rfl, fun pd h => by cases h⟩
+  | some pd =>
+    by_cases hpo : needsPacketOut (some pd) = true
+    · obtain ⟨hip, hdl⟩ := hd pd rfl
+      -- the packet-out
+      obtain ⟨m3, he3, hd3, hh3⟩ := packet_out_roundtrip (n + 1) (reinject (outTable n) xp pd) tl
+        (show (1 : Nat) < 256 by decide) (show (13 : Nat) < 256 by decide) hxp (show NO_BUFFER < 2 ^ 32 by decide) hip
+        (by intro e he; simp [reinject] at he; subst he; exact outTable_ok n)
+        (by intro acts ha; simp only [reinject] at ha ⊢; rw [outTable_len n acts ha]; omega)
+      -- the barrier
+      have hfb : Fits (codecAt env (n + 1)) (okAt env (n + 1)) Spec.OF10.header_only (barrierRec _ xb) := by
+        refine ⟨?_, trivial, ?_⟩
+        · simp [Spec.OF10.header_only, Spec.OF10.ofp_header, barrierRec, fitsFixed, hxb]
+        · intro t ht
+          simp only [Spec.OF10.header_only, barrierRec, encTail, Option.some.injEq] at ht
+          subst ht
+          decide
+      have hlenb : hasLen Spec.OF10.header_only.fixed = true := by decide
+      obtain ⟨m2, _, he2, _, hd2, _, hh2⟩ := roundtrip_nested env (n + 1) Spec.OF10.header_only _ none (m3 ++ tl) hfb (.inl hlenb)
+      refine ⟨m1, [m2, m3], by simp [fmPack, encFlowMod, he1, hpo, he2, he3], hfirst, fun h => by simp [hpo] at h, ?_⟩
+      intro pd' hpd' _
+      cases hpd'
+      exact ⟨m2, m3, rfl, hd2, hh2 hlenb, hd3, hh3⟩
+    · have hpo' : needsPacketOut (some pd) = false := by simpa using hpo
+      exact ⟨m1, [], by simp [fmPack, encFlowMod, he1, hpo'], hfirst, fun _ => rfl, fun pd' _ h => by simp [hpo'] at h⟩
+
 /-! ## 4c. Statistics request / reply: body dispatch by type code (`CodecOF.encStats` / `decStats` / `decBody`) -/
 
 /-- **`stats_reply_list_roundtrip`**: a statistics reply whose type is registered with `is_list` (flow, table, port,
